@@ -136,6 +136,13 @@ CLAIMED["C14"] = (
     "DESIGN.md 3/C14",
 )
 
+CLAIMED["C09"] = (
+    "runtime monitoring of schedules with hooks and ThreadSanitizer: each 2D/3D/mesh scene run without a pool and under pools of 1..16 threads with seeded yields/sleeps injected at the verif-hooks points, results compared bit for bit / as triangle multisets; cancellation before the call, at every poll k (fault enumeration through the CancelPoll hook), and from a timer thread; offline checker over the hook event log (exactly-once start/end per tile or task, no start after the worker's poll saw the cancel, None iff a poll saw the flag; distinct schedule signatures counted); shared tapes of all kinds evaluated from 16 threads; then the reduced workload under a -Zsanitizer=thread -Zbuild-std build with reports classified by fidget frames",
+    "Held on every schedule observed (thousands of distinct tile/task-to-thread schedules per quick run, cancel enumerated at every poll for ~200 scenes, zero ThreadSanitizer reports). Exploration of schedules, not exhaustive.",
+    "TSan does not see accesses made by JIT-generated code (they touch per-thread buffers; covered by the guard-page allocator in C02/C10); liveness is observed as bounded progress.",
+    "DESIGN.md 3/C09",
+)
+
 NOT_YET = {}
 
 def main():
@@ -167,7 +174,7 @@ def main():
             na.append({"property_id": pid, "reason": NOT_YET.get(pid, "monitor not built yet in this revision of /verif (planned, see DESIGN.md section 3); not claimed until its check exists and is silent on the unchanged tree")})
     m = {
         "version": 1,
-        "setup_cmd": "cd /verif/harness && CARGO_NET_OFFLINE=true cargo build --release --offline",
+        "setup_cmd": "cd /verif/harness && CARGO_NET_OFFLINE=true cargo build --release --offline && RUSTFLAGS=-Zsanitizer=thread CARGO_NET_OFFLINE=true cargo +nightly build --release --offline -Zbuild-std --target x86_64-unknown-linux-gnu --target-dir target-tsan",
         "hooks": {
             "guard": "verif-hooks (cargo feature of fidget-core, forwarded by fidget-raster and fidget-mesh)",
             "enable": "harness/Cargo.toml depends on /repo/fidget-* by path with features = [\"verif-hooks\"]",
